@@ -152,6 +152,15 @@ def _run(ctx, kind, limit=None):
         ctx.sample({k: c[k] for k in c if k not in ("along", "quant")} if kind != "arr" else {"shape": c["shape"], "flat": c["flat"], "mean_along_axis0": c["along"][0]["mean"]})
 
 
+def _composed(ctx, formats=("text",)):
+    """-T inside Dataset.tla (Dataset!PreAggAt): inputs with different, unsorted lead-time grids, missing cells, an input without
+    observations, -o / -t selections applied after the windows -- the whole request menu of the dataset checks"""
+    from harness.checks import dscommon
+    for fmt in formats:
+        dscommon.run_family(ctx, "C15T", fmt=fmt, always_nontrivial=True)
+        dscommon.run_family(ctx, "C15T", fmt=fmt, fresh=False, limit=40, always_nontrivial=True)
+
+
 def run(ctx):
     ctx.rule = ("case = vector x 14 aggregators + 5 quantile levels | 3-d array x dimension x aggregator | (lead-time grid in file order, "
                 "window length, aggregator); non-trivial = ties or missing values | every array | grid with >= 2 points")
@@ -160,10 +169,12 @@ def run(ctx):
         _run(ctx, "vec")
         _run(ctx, "arr", limit=1200)
         _run(ctx, "win", limit=2500)
+        _composed(ctx)
     else:
         _run(ctx, "vec")
         _run(ctx, "arr")
         _run(ctx, "win")
+        _composed(ctx, formats=("text", "netcdf"))
         ctx.exhaustive = True
     par.clean_workdirs()
 
